@@ -54,6 +54,10 @@ def vocabulary(reference_texts):
 def opaque(text, vocab):
     if UNRESOLVED.search(text):
         return True
+    # success of an iterator pipeline that runs a fallible closure (collect::<Result<..>>(), try_for_each ..):
+    # what has to succeed is inside the closure and is not interpreted
+    if re.search(r"\b(?:CALLOK|OK)\((?:collect|try_for_each|try_fold|sum|product)\(.*\|", text):
+        return True
     for m in IDENT_CALL.finditer(text):
         name = m.group(1)
         if name.isupper() or name.startswith("IS_"):
